@@ -25,6 +25,39 @@ theorem C09_server_failure_tag (s : St) (now fuel : Nat) :
   unfold ErrShape at h
   cases hr : (requestsPollNext fuel s now).2 <;> rw [hr] at h <;> exact h
 
+/-- **A transport call fails iff its armed fault fires** (`SimT.fires`: the kind is armed and its
+countdown `faultSkip` has run out — "the `(faultSkip+1)`-th call of the kind fails"); a read also fails on an
+injected read error.  These are the failures `fails` counts (`failOf`), so `C09_server_failure_tag` reads: the
+poll returns `.err a` exactly when a fault of activity `a` fired (or a read error arrived) during it. -/
+theorem C09_call_fails_iff_fires (t : SimT) (m : Msg) :
+    (t.pollReady.2.1 = .err ↔ t.fires t.faultReady = true) ∧
+    (t.pollFlush.2.1 = .err ↔ t.fires t.faultFlush = true) ∧
+    ((t.startSend m).2 = false ↔ t.fires t.faultSend = true) ∧
+    (t.pollNext.2 = .err ↔ t.fires t.faultNext = true ∨ ∃ rest, t.inbound = .err :: rest) := by
+  have hu : ∀ w : String, (t.useAfter w).fires (t.useAfter w).faultReady = t.fires t.faultReady ∧
+      (t.useAfter w).fires (t.useAfter w).faultFlush = t.fires t.faultFlush ∧
+      (t.useAfter w).fires (t.useAfter w).faultSend = t.fires t.faultSend := by
+    intro w; unfold SimT.useAfter SimT.violate SimT.fires; repeat' split
+    all_goals exact ⟨rfl, rfl, rfl⟩
+  refine ⟨?_, ?_, ?_, ?_⟩
+  · rcases SimT.pollReady_cases t with ⟨hf, he⟩ | ⟨hf, _, he⟩ | ⟨hf, _, he⟩ <;> rw [(hu "ready").1] at hf <;>
+      rw [he, hf] <;> simp
+  · rcases SimT.pollFlush_cases t with ⟨hf, he⟩ | ⟨hf, he⟩ | ⟨hf, he⟩ <;> rw [(hu "flush").2.1] at hf <;>
+      rw [he, hf] <;> simp
+  · unfold SimT.startSend
+    simp only
+    have hv : ∀ u : SimT, (if u.gotReady = true then u else u.violate "send-without-ready").fires
+        (if u.gotReady = true then u else u.violate "send-without-ready").faultSend = u.fires u.faultSend := by
+      intro u; split <;> rfl
+    rw [hv, (hu "send").2.2]
+    cases t.fires t.faultSend <;> simp
+  · rcases SimT.pollNext_cases t with ⟨hf, he⟩ | ⟨hf, u, _, hi, he⟩
+    · rw [he, hf]; simp
+    · rw [he, hf, ← hi]
+      cases hq : u.inbound with
+      | nil => simp only; split <;> simp
+      | cons a rest => cases a <;> simp
+
 /-- **C09 (server): the poll records what it reports.**  For a poll of a live request stream (from any
 state, in particular any reachable one) that does not poison the model: if it records
 `done = some (readyItemErr a)` then exactly the failure `a` was observed during this poll, and if it
@@ -105,6 +138,16 @@ example :
         .pollServer].foldl applyOp (initSys none 1 1 true)).s.done) =
     (some (.readyItemErr .read), some (.readyItemErr .ready), some (.readyItemErr .flush),
      some (.readyItemErr .write)) := by
+  decide
+
+/-- Fault countdown: `fault ready` with `faultSkip 2` lets two `poll_ready` calls through and fails the
+third.  Each poll of an idle request stream calls `poll_ready` once (the write pump): the first two polls go
+idle, the third ends the stream with the `ready` tag. -/
+example :
+    (([SOp.fault .ready, .faultSkip 2, .pollServer].foldl applyOp (initSys none 1 1 true)).s.done,
+     ([SOp.fault .ready, .faultSkip 2, .pollServer, .pollServer].foldl applyOp (initSys none 1 1 true)).s.done,
+     ([SOp.fault .ready, .faultSkip 2, .pollServer, .pollServer, .pollServer].foldl applyOp (initSys none 1 1 true)).s.done) =
+    (none, none, some (.readyItemErr .ready)) := by
   decide
 
 end TarpcModel.Server
